@@ -161,6 +161,19 @@ func VP_C12_BlockBounds() {
 // buffers need several window shifts.
 func VP_C12_DCBuffer() {
 	solid := NewRect(XYZ(-0.43, -0.37, -0.9), XYZ(0.41, 0.33, 1.2))
+	switch vp.Param("shape") {
+	case 1: // more lattice columns than rows
+		solid = NewRect(XYZ(-0.43, -0.37, -0.9), XYZ(1.41, 0.33, 1.2))
+	case 2: // more rows than columns
+		solid = NewRect(XYZ(-0.43, -0.37, -0.9), XYZ(0.41, 1.33, 1.2))
+	}
+	layout := newDcCubeLayout(solid.Min(), solid.Max(), 0.5, true, 0)
+	perSlab := len(layout.Xs) * len(layout.Ys)
+	if vp.Param("shape") == 1 {
+		vp.Assert(len(layout.Xs) > len(layout.Ys), "lattice is wider than deep")
+	} else if vp.Param("shape") == 2 {
+		vp.Assert(len(layout.Xs) < len(layout.Ys), "lattice is deeper than wide")
+	}
 	mk := func(buf, gos int) *Mesh {
 		dc := &DualContouring{
 			S:          SolidSurfaceEstimator{Solid: solid},
@@ -175,10 +188,10 @@ func VP_C12_DCBuffer() {
 	ref := mk(0, 1)
 	vp.Assert(ref.NumTriangles() > 0, "reference mesh is not empty")
 	vp.Assert(!ref.NeedsRepair() && len(ref.InconsistentEdges()) == 0, "dual contouring output is a closed oriented manifold")
-	// lattice is 4 x 4 x 7 points: 16 per slab; BufRows = clamp(buf/16, 4, 7)
+	// lattice is nx x ny x 7 points; BufRows = clamp(buf/(nx*ny), 4, 7)
 	rows := vp.Int("bufRows", 1, 8)
 	gos := vp.Int("maxGos", 1, 3)
-	got := mk(vp.Concrete(rows)*16, vp.Concrete(gos))
+	got := mk(vp.Concrete(rows)*perSlab, vp.Concrete(gos))
 	vp.Assert(got.NumTriangles() == ref.NumTriangles(), "same number of faces for every buffer size and MaxGos")
 	same := true
 	got.Iterate(func(t *Triangle) {
@@ -187,5 +200,63 @@ func VP_C12_DCBuffer() {
 		}
 	})
 	vp.Assert(same, "same faces for every buffer size and MaxGos")
+	vp.Reach("end")
+}
+
+// vpMCRootDivisor replaces the constant 4096 in MarchingCubesFilter (source
+// cut, see /verif/cuts.json); the default keeps the behaviour unchanged.
+var vpMCRootDivisor = 4096
+
+// VP_C12_FilterE2E: the real MarchingCubesFilter driver, with the root block
+// queued whole so that the workers re-split it (more than 64 cells), gives
+// the same faces as MarchingCubes for every conservative filter: the filter
+// answers true for every block whose cells contain surface and an arbitrary
+// (symbolic) answer for every other block, at both splitting levels.
+func VP_C12_FilterE2E() {
+	old := vpMCRootDivisor
+	vpMCRootDivisor = 1
+	defer func() { vpMCRootDivisor = old }()
+
+	nx, ny, nz := vp.Param("nx"), vp.Param("ny"), vp.Param("nz")
+	l := &vpLatticeSolid{nx: nx, ny: ny, nz: nz, vals: make([]bool, nx*ny*nz)}
+	// a small blob in one corner (pattern 0) or two separate points (pattern 1)
+	l.vals[0] = true
+	if vp.Param("pattern") == 1 {
+		l.vals[len(l.vals)-1] = true
+	} else if nx > 1 {
+		l.vals[1] = true
+	}
+	vp.Assert((nx+1)*(ny+1)*(nz+1) > 64, "more than 64 cells: the workers re-split the queued block")
+	ref := MarchingCubes(l, 1)
+	hasSurface := func(r *Rect) bool {
+		// cells are unit cubes with integer corners from -1 to n
+		for z := -1; z < nz; z++ {
+			for y := -1; y < ny; y++ {
+				for x := -1; x < nx; x++ {
+					lo, hi := XYZ(float64(x), float64(y), float64(z)), XYZ(float64(x+1), float64(y+1), float64(z+1))
+					if lo.X < r.MinVal.X-0.5 || lo.Y < r.MinVal.Y-0.5 || lo.Z < r.MinVal.Z-0.5 ||
+						hi.X > r.MaxVal.X+0.5 || hi.Y > r.MaxVal.Y+0.5 || hi.Z > r.MaxVal.Z+0.5 {
+						continue
+					}
+					first := l.Contains(lo)
+					for c := 1; c < 8; c++ {
+						p := XYZ(float64(x+c&1), float64(y+(c>>1)&1), float64(z+(c>>2)&1))
+						if l.Contains(p) != first {
+							return true
+						}
+					}
+				}
+			}
+		}
+		return false
+	}
+	got := MarchingCubesFilter(l, func(r *Rect) bool {
+		if hasSurface(r) {
+			return true
+		}
+		return vp.Bool("filter keeps a block without surface")
+	}, 1)
+	vp.Assert(len(ref.TriangleSlice()) > 0, "reference mesh is not empty")
+	vp.Assert(vpSameFaces(ref, got), "MarchingCubesFilter gives the faces of MarchingCubes for every conservative filter")
 	vp.Reach("end")
 }
